@@ -41,7 +41,8 @@
    - C02_network_once_in_order: at every node, in every reachable state, the ids that arrived are the ids answered
      followed by the ids pending, without repetition (answered at most once, in arrival order);
    - C02_network_justified: every answer ever given is its node's own result (nothing derived) or the join of
-     the answers that the packets derived from the request had received EARLIER - so the answers do not depend
+     the answers that the packets derived from the request had received EARLIER (or, from a node that has been
+     closed, the dropped-packet error: teardown, C03) - so the answers do not depend
      on the schedule: they are the recursive evaluation over the derivation tree, which is what the harness's
      reference evaluation of a workflow computes;
    - C02_network_no_deadlock: while anything is pending some node can finish an action or answer (acyclicity is
@@ -162,26 +163,26 @@ Proof.
 Qed.
 
 (* ---- across nodes ---- *)
-Theorem C02_network_once_in_order : forall (ans : Type) (join : list ans -> ans) (N : nat) ls n,
-  let st := Network.run ans join N ls in
+Theorem C02_network_once_in_order : forall (ans : Type) (join : list ans -> ans) (drop : ans) (N : nat) ls n,
+  let st := Network.run ans join drop N ls in
   Network.n_arr ans st n = Network.n_done ans st n ++ map (Network.q_id ans) (Network.n_q ans st n) /\ NoDup (Network.n_arr ans st n).
 Proof. exact Network.answered_once_in_order. Qed.
 Print Assumptions C02_network_once_in_order.
 
-Theorem C02_network_justified : forall (ans : Type) (join : list ans -> ans) (N : nat) ls,
-  Network.ans_ok ans join (Network.n_der ans (Network.run ans join N ls)) (Network.n_ans ans (Network.run ans join N ls)).
+Theorem C02_network_justified : forall (ans : Type) (join : list ans -> ans) (drop : ans) (N : nat) ls,
+  Network.ans_ok ans join drop (Network.n_der ans (Network.run ans join drop N ls)) (Network.n_ans ans (Network.run ans join drop N ls)).
 Proof. exact Network.answers_justified. Qed.
 Print Assumptions C02_network_justified.
 
-Theorem C02_network_no_deadlock : forall (ans : Type) (join : list ans -> ans) (N : nat) st,
-  Network.Inv ans join N st -> Network.busy ans st ->
-  (exists n, forall own, Network.step ans join N st (Network.LProc ans n own []) <> None) \/ (exists n, Network.step ans join N st (Network.LAns ans n) <> None).
+Theorem C02_network_no_deadlock : forall (ans : Type) (join : list ans -> ans) (drop : ans) (N : nat) st,
+  Network.Inv ans join drop N st -> Network.busy ans st ->
+  (exists n, forall own, Network.step ans join drop N st (Network.LProc ans n own []) <> None) \/ (exists n, Network.step ans join drop N st (Network.LAns ans n) <> None).
 Proof. exact Network.can_move. Qed.
 Print Assumptions C02_network_no_deadlock.
 
-Theorem C02_network_quiescent : forall (ans : Type) (join : list ans -> ans) (N : nat) ls,
-  let st := Network.run ans join N ls in
-  (forall n own, Network.step ans join N st (Network.LProc ans n own []) = None) -> (forall n, Network.step ans join N st (Network.LAns ans n) = None) ->
+Theorem C02_network_quiescent : forall (ans : Type) (join : list ans -> ans) (drop : ans) (N : nat) ls,
+  let st := Network.run ans join drop N ls in
+  (forall n own, Network.step ans join drop N st (Network.LProc ans n own []) = None) -> (forall n, Network.step ans join drop N st (Network.LAns ans n) = None) ->
   (exists own : ans, True) ->
   forall n, Network.n_q ans st n = [] /\ Network.n_done ans st n = Network.n_arr ans st n /\ NoDup (Network.n_done ans st n).
 Proof. exact Network.quiescent_all_answered. Qed.
@@ -199,7 +200,7 @@ Definition c02_net_run : list (Network.lab nat) :=
    Network.LProc nat 3 7 []; Network.LProc nat 3 8 []; Network.LAns nat 3; Network.LAns nat 3;
    Network.LAns nat 1; Network.LAns nat 1; Network.LAns nat 2; Network.LAns nat 0; Network.LAns nat 0].
 Example C02_ex_network :
-  let st := Network.run nat (fun l => fold_right Nat.add 0 l) 4 c02_net_run in
+  let st := Network.run nat (fun l => fold_right Nat.add 0 l) 999 4 c02_net_run in
   Network.n_out nat st = [(1, 11); (0, 15)] /\ Network.n_done nat st 0 = [0; 1] /\ Network.n_done nat st 1 = [2; 4] /\ Network.n_done nat st 3 = [5; 6]
   /\ Network.n_q nat st 0 = [] /\ Network.n_q nat st 1 = [] /\ Network.n_q nat st 2 = [] /\ Network.n_q nat st 3 = [].
 Proof. vm_compute. repeat split; reflexivity. Qed.
